@@ -251,7 +251,7 @@ def one(ctx, rng, k):
 
 def run_shard(ctx):
     logging.disable(logging.CRITICAL)
-    for k in range(ctx.n(300, 10000)):
+    for k in range(ctx.n(600, 10000)):
         if ctx.out_of_time():
             break
         ctx.guarded(one, ctx, ctx.rng, k, timeout=120)
